@@ -133,7 +133,7 @@ PROPS = {
         "assumptions": ["faults are whole-call failures of the Database trait (the property's fault model); process crashes are C11"],
     },
     "C11": {
-        "coq_deps": ["StoreFacts", "DirFacts"],
+        "coq_deps": ["StoreFacts", "StoreWrite", "DirFacts"],
         "steps": [{"sub": "c11", "quick": [0], "thorough": [1], "timeout": 3000}],
         "rule": "recorded commit batches of real publishes (create / split / update nodes): the model predicate commit_shape is evaluated on every record of the batch against the store before the publish (must be true: premise of the theorem), the tree reconstructed from raw records as of E, E+1 and E-1 by the model's version selection is compared with the implementation's (hook H2); crash points on the real code: every prefix of several orders and random subsets of the batch written to a copy of the pre-publish database, a second instance must serve the previous epoch (epoch hash, lookups, histories, audit verify) and, with the epoch record, the new epoch",
         "assumptions": ["record-level atomicity of the storage (the property's premise); the epoch record is written last (checked on the recorded batch)"],
